@@ -145,6 +145,10 @@ pub struct Compiler {
     instructions: Vec<u8>,
     last_instruction: Option<OpCode>,
     loop_contexts: Vec<LoopContext>,
+
+    /// The number of values of half-evaluated expressions that are on the stack at this point of the
+    /// (current) function, like the left operand of an infix expression while its right operand runs.
+    pending_operands: usize,
     gc: GC,
 }
 
@@ -157,13 +161,18 @@ struct LoopContext {
     /// Stores the index of all JUMP instructions within the current loop context that originate from a break statement
     /// Once this loop context ends, these instructions should have their operands updated to the first instruction that follows this loop
     break_instructions: Vec<usize>,
+
+    /// The number of pending operands when a statement in the body of this loop starts
+    /// 'stop' and 'volgende' have to remove whatever is on top of that before they jump
+    pending_operands: usize,
 }
 
 impl LoopContext {
-    fn new(start: usize) -> Self {
+    fn new(start: usize, pending_operands: usize) -> Self {
         Self {
             start,
             break_instructions: Vec::new(),
+            pending_operands,
         }
     }
 }
@@ -177,6 +186,7 @@ impl Compiler {
             constants: Vec::new(),
             last_instruction: None,
             loop_contexts: Vec::new(),
+            pending_operands: 0,
             gc: GC::new(),
         }
     }
@@ -295,6 +305,7 @@ impl Compiler {
                 self.emit_opcode(OpCode::ReturnValue);
             }
             Stmt::Break => {
+                self.emit_pops_for_pending_operands();
                 self.emit_opcode(OpCode::Null);
                 let pos = self.instructions.len();
                 self.emit_opcode(OpCode::Jump);
@@ -308,6 +319,7 @@ impl Compiler {
                 ctx.break_instructions.push(pos);
             }
             Stmt::Continue => {
+                self.emit_pops_for_pending_operands();
                 self.emit_opcode(OpCode::Null);
 
                 let pos = match self.loop_contexts.iter().last() {
@@ -322,6 +334,16 @@ impl Compiler {
         }
 
         Ok(())
+    }
+
+    /// Leaving an iteration from the middle of an expression (e.g. 1 + als x { stop } anders { 2 })
+    /// would leave the values of that half-evaluated expression on the stack, so pop those first.
+    fn emit_pops_for_pending_operands(&mut self) {
+        if let Some(ctx) = self.loop_contexts.last() {
+            for _ in ctx.pending_operands..self.pending_operands {
+                self.emit_opcode(OpCode::Pop);
+            }
+        }
     }
 
     fn compile_operator(&mut self, operator: &Operator) {
@@ -454,8 +476,11 @@ impl Compiler {
                     Expr::Identifier(name) => name,
                     Expr::Index { left, index } => {
                         self.compile_expression(left)?;
+                        self.pending_operands += 1;
                         self.compile_expression(index)?;
+                        self.pending_operands += 1;
                         self.compile_expression(right)?;
+                        self.pending_operands -= 2;
                         self.emit_opcode(OpCode::IndexSet);
                         return Ok(());
                     }
@@ -534,7 +559,9 @@ impl Compiler {
 
                 // If that failed because we haven't implemented a specialized instruction yet, compile it as a sequence of normal instructions
                 self.compile_expression(left)?;
+                self.pending_operands += 1;
                 self.compile_expression(right)?;
+                self.pending_operands -= 1;
                 self.compile_operator(operator);
             }
             Expr::If {
@@ -582,10 +609,16 @@ impl Compiler {
             Expr::While { condition, body } => {
                 // TODO: Can we get rid of this now that empty block statement emit a NULL?
                 self.emit_opcode(OpCode::Null);
-                self.loop_contexts
-                    .push(LoopContext::new(self.instructions.len()));
+                self.loop_contexts.push(LoopContext::new(
+                    self.instructions.len(),
+                    self.pending_operands,
+                ));
                 let pos_before_condition = self.instructions.len();
+
+                // The value of the previous iteration is still on the stack while the condition runs
+                self.pending_operands += 1;
                 self.compile_expression(condition)?;
+                self.pending_operands -= 1;
 
                 let pos_jump_if_false = self.instructions.len();
                 self.emit_opcode(OpCode::JumpIfFalse);
@@ -640,8 +673,10 @@ impl Compiler {
 
                 // Loops surrounding this function are of no concern to 'stop' and 'volgende' inside of it
                 let outer_loop_contexts = std::mem::take(&mut self.loop_contexts);
+                let outer_pending_operands = std::mem::take(&mut self.pending_operands);
                 let result = self.compile_block_statement(body);
                 self.loop_contexts = outer_loop_contexts;
+                self.pending_operands = outer_pending_operands;
                 result?;
 
                 if self.last_instruction_is(OpCode::Pop) {
@@ -682,7 +717,9 @@ impl Compiler {
             Expr::Call { left, arguments } => 'compile_call: {
                 for a in arguments {
                     self.compile_expression(a)?;
+                    self.pending_operands += 1;
                 }
+                self.pending_operands -= arguments.len();
 
                 if let Expr::Identifier(name) = &**left {
                     if let Some(builtin) = builtins::resolve(name) {
@@ -692,7 +729,9 @@ impl Compiler {
                         break 'compile_call;
                     }
                 }
+                self.pending_operands += arguments.len();
                 self.compile_expression(left)?;
+                self.pending_operands -= arguments.len();
                 self.emit_opcode(OpCode::Call);
                 self.emit_u8(arguments.len().try_into().unwrap());
             }
@@ -700,14 +739,18 @@ impl Compiler {
             Expr::Array { values } => {
                 for v in values {
                     self.compile_expression(v)?;
+                    self.pending_operands += 1;
                 }
+                self.pending_operands -= values.len();
                 self.emit_opcode(OpCode::Array);
                 self.emit_u16(values.len().try_into().unwrap());
             }
 
             Expr::Index { left, index } => {
                 self.compile_expression(left)?;
+                self.pending_operands += 1;
                 self.compile_expression(index)?;
+                self.pending_operands -= 1;
                 self.emit_opcode(OpCode::IndexGet);
             }
         }
